@@ -905,26 +905,105 @@ pub fn run_common(ctx: &mut Ctx, targets: &'static [Tgt], check: fn(&Value) -> V
     // ---- a struct converted to its base (Metal only: the HLSL text keeps the cast between two flattened structs, whose
     // meaning there is not modelled)
     if msl {
-        const BASES: [(&str, &str, &str); 4] = [
+        const BASES: [(&str, &str, &str); 6] = [
             ("int za;", "d.za = k;", "b.za"),
             ("int za; float zb;", "d.za = k; d.zb = x;", "b.za + (int)b.zb"),
             ("float2 za; int zb[2];", "d.za = float2(x, x + 1.0); d.zb[0] = k; d.zb[1] = k + 1;", "(int)b.za.y + b.zb[1]"),
             ("ZI zi; int za;", "d.zi.zq = k; d.zi.zr = x; d.za = 7;", "b.zi.zq + (int)b.zi.zr + b.za"),
+            // member names that are words of the Metal language: renamed per struct, so the base and the derived
+            // struct carry different names for the same member
+            ("float vertex; int fragment;", "d.vertex = x; d.fragment = k;", "(int)b.vertex + b.fragment"),
+            ("int kernel[2]; ZI thread;", "d.kernel[0] = k; d.kernel[1] = 5; d.thread.zq = k + 1; d.thread.zr = x;", "b.kernel[0] + b.kernel[1] * 3 + b.thread.zq + (int)b.thread.zr"),
         ];
         const USES: [&str; 4] = ["ZB b = (ZB)d;", "ZB b = zbase(d);", "ZB b; b = (ZB)d;", "ZB b = ztake((ZB)d);"];
         let make = |i: u64| {
-            let (members, fill, sum) = BASES[(i % 4) as usize];
-            let usage = USES[((i / 4) % 4) as usize];
+            let (members, fill, sum) = BASES[(i % 6) as usize];
+            let usage = USES[((i / 6) % 4) as usize];
             let src = format!(
                 "struct ZI {{ int zq; float zr; }};\nstruct ZB {{ {} }};\nstruct ZD : ZB {{ int zc; float zd; }};\nZB zbase(ZD d) {{ return (ZB)d; }}\nZB ztake(ZB b) {{ return b; }}\nint zuse(int k, float x) {{\n    ZD d;\n    {}\n    d.zc = k + 100;\n    d.zd = x * 2.0;\n    {}\n    return {} + d.zc;\n}}\n",
                 members, fill, usage, sum
             );
             record(&src, Tgt::Msl, 0x1be0 ^ i)
         };
-        ctx.run_enum("base_struct_conversions", 16, true, make, |i| match check(&make(i)) {
+        ctx.run_enum("base_struct_conversions", 24, true, make, |i| match check(&make(i)) {
             Verdict::Pass { nontrivial, mut labels } => {
                 labels.retain(|l| !l.starts_with("compared_functions"));
                 labels.push("base_struct_conversion".into());
+                Verdict::Pass { nontrivial, labels }
+            }
+            other => other,
+        });
+    }
+    // ---- arrays of several dimensions as parameters: every element has to arrive and come back
+    {
+        const ARRAYS: [&str; 4] = [
+            "int zsum(int g[2][3]) { int s = 0; for (int i = 0; i < 2; i++) { for (int j = 0; j < 3; j++) { s = s * 3 + g[i][j]; } } return s; }\nvoid zbump(inout int g[2][3]) { for (int i = 0; i < 2; i++) { for (int j = 0; j < 3; j++) { g[i][j] += i * 10 + j; } } }\nvoid zfill(out int g[2][3], int v) { for (int i = 0; i < 2; i++) { for (int j = 0; j < 3; j++) { g[i][j] = v + i * 3 + j; } } }\nint zuse(int k) { int g[2][3] = { { k, 1, 2 }, { 3, 4, 5 } }; zbump(g); int t[2][3]; zfill(t, k); return zsum(g) * 7 + zsum(t); }\n",
+            "float zsum(float g[2][2][2]) { float s = 0; for (int i = 0; i < 2; i++) { for (int j = 0; j < 2; j++) { for (int k = 0; k < 2; k++) { s = s * 2 + g[i][j][k]; } } } return s; }\nvoid zscale(inout float g[2][2][2], float f) { for (int i = 0; i < 2; i++) { for (int j = 0; j < 2; j++) { for (int k = 0; k < 2; k++) { g[i][j][k] = g[i][j][k] * f + k; } } } }\nfloat zuse(float x) { float g[2][2][2] = { { { x, 1 }, { 2, 3 } }, { { 4, 5 }, { 6, 7 } } }; zscale(g, 2.0); return zsum(g); }\n",
+            "float2 zlast(float2 g[3][2]) { g[0][0] = float2(9, 9); return g[2][1] + g[1][0]; }\nvoid zset(out float2 g[3][2], float v) { for (int i = 0; i < 3; i++) { for (int j = 0; j < 2; j++) { g[i][j] = float2(v + i, v + j); } } }\nfloat zuse(float x) { float2 g[3][2]; zset(g, x); float2 r = zlast(g); return r.x * 10 + r.y + g[0][0].x + g[2][1].y; }\n",
+            "struct ZS { int a[2][2]; };\nint zpeek(ZS s, int t[2][2]) { t[1][0] += 100; return s.a[1][1] * 10 + t[1][0]; }\nint zuse(int k) { ZS s; s.a[0][0] = k; s.a[0][1] = 1; s.a[1][0] = 2; s.a[1][1] = 3; int r = zpeek(s, s.a); return r * 1000 + s.a[1][0] * 10 + s.a[0][0]; }\n",
+        ];
+        let n_t = targets.len() as u64;
+        let make = |i: u64| record(ARRAYS[(i / n_t) as usize], targets[(i % n_t) as usize], 0xa44a ^ i);
+        ctx.run_enum("array_parameter_copies", 4 * n_t, true, make, |i| match check(&make(i)) {
+            Verdict::Pass { nontrivial, mut labels } => {
+                labels.retain(|l| !l.starts_with("compared_functions"));
+                labels.push("array_parameter_copy".into());
+                Verdict::Pass { nontrivial, labels }
+            }
+            other => other,
+        });
+    }
+    // ---- an array or struct cast to a scalar: the first element of the flattened operand
+    {
+        const AGG: [&str; 6] = [
+            "int zf(int k) { int arr[3] = { k + 5, 2, 3 }; return (int)arr + 1; }\n",
+            "bool zf(float x) { float arr[2][2] = { { x, 1 }, { 2, 3 } }; return (bool)arr; }\n",
+            "struct ZS { int a; float b; };\nfloat zf(int k, float x) { ZS s; s.a = k; s.b = x; return (float)s * 2.0; }\n",
+            "struct ZS { float a; int b; };\nstruct ZT { ZS s[2]; int c; };\nint zf(int k, float x) { ZT t; t.s[0].a = x; t.s[0].b = k; t.s[1].a = 1.0; t.s[1].b = 2; t.c = 9; return (int)t + (int)t.s[1] * 10; }\n",
+            "struct ZS { float2 v; int b; };\nfloat zf(float x) { ZS s; s.v = float2(x, 7.0); s.b = 3; return (float)s; }\n",
+            "struct ZB { uint vertex; };\nstruct ZD : ZB { int c; };\nuint zf(uint k) { ZD d; d.vertex = k; d.c = 4; return (uint)d + 1u; }\n",
+        ];
+        let n_t = targets.len() as u64;
+        let make = |i: u64| record(AGG[(i / n_t) as usize], targets[(i % n_t) as usize], 0xa66 ^ i);
+        ctx.run_enum("aggregate_to_scalar_casts", 6 * n_t, true, make, |i| match check(&make(i)) {
+            Verdict::Pass { nontrivial, mut labels } => {
+                labels.retain(|l| !l.starts_with("compared_functions"));
+                labels.push("aggregate_to_scalar_cast".into());
+                Verdict::Pass { nontrivial, labels }
+            }
+            other => other,
+        });
+    }
+    // ---- names of the root scope used (with a leading ::) where a namespace or a struct declares the same name
+    {
+        let hidden_source = |i: u64| -> String {
+            let bits = i % 16;
+            let place = (i / 16) % 4;
+            let decls = format!(
+                "{}{}{}{}",
+                if bits & 1 != 0 { "static int za = 100;\n" } else { "" },
+                if bits & 2 != 0 { "static const int zc = 200;\n" } else { "" },
+                if bits & 4 != 0 { "int zf(int k) { return k + 3000; }\nint zf(float k) { return 4000; }\n" } else { "" },
+                if bits & 8 != 0 { "struct ZS { int m; int n; };\n" } else { "" },
+            );
+            let body = "::ZS s; s.m = k; ZS t; t.m = 7; ::za = ::za + 1; za = za + 2; return ::za + ::zc * 2 + ::zf(k) * 3 + s.m * 5 + za * 7 + zc * 11 + zf(k) * 13 + t.m;";
+            let (inner, call) = match place {
+                0 => (format!("{}int zin(int k) {{ {} }}\n", decls, body), "ZN::zin(k)".to_string()),
+                1 => (format!("{}namespace ZM {{\nint zin(int k) {{ {} }}\n}}\n", decls, body), "ZN::ZM::zin(k)".to_string()),
+                2 => (format!("namespace ZM {{\n{}int zin(int k) {{ {} }}\n}}\n", decls, body), "ZN::ZM::zin(k)".to_string()),
+                _ => (format!("{}struct ZW {{ int zq; {} int zin(int k) {{ {} }} }};\nint zcall(int k) {{ ZW w; w.zq = 3; {} return w.zin(k) + w.zq; }}\n", decls, if bits & 1 != 0 { "int zc;" } else { "int za;" }, body.replace("za = za + 2;", "zq = zq + 2;"), if bits & 1 != 0 { "w.zc = 9;" } else { "w.za = 9;" }), "ZN::zcall(k)".to_string()),
+            };
+            format!(
+                "static int za = 1;\nstatic const int zc = 2;\nint zf(int k) {{ return k + 10; }}\nint zf(float k) {{ return 20; }}\nstruct ZS {{ int m; }};\nnamespace ZN {{\n{}}}\nint zuse(int k) {{ return {} + za; }}\n",
+                inner, call
+            )
+        };
+        let n_t = targets.len() as u64;
+        let make = |i: u64| record(&hidden_source(i / n_t), targets[(i % n_t) as usize], 0x41dd ^ i);
+        ctx.run_enum("hidden_root_names", 64 * n_t, true, make, |i| match check(&make(i)) {
+            Verdict::Pass { nontrivial, mut labels } => {
+                labels.retain(|l| !l.starts_with("compared_functions"));
+                labels.push("hidden_root_name".into());
                 Verdict::Pass { nontrivial, labels }
             }
             other => other,
